@@ -106,6 +106,8 @@ void mv_verdict(int code, const char * fmt, ...) {
 void mv_set_report_fn(void (*fn)(int, const char *)) { report_fn = fn; }
 void mv_set_quiescent_fn(int (*fn)(void)) { quiescent_fn = fn; }
 void mv_set_point_observer(void (*fn)(int, int)) { point_observer = fn; }
+static void (*spin_observer)(int, int);
+void mv_set_spin_observer(void (*fn)(int, int)) { spin_observer = fn; }
 void mv_set_fence_observer(void (*fn)(int, int)) { fence_observer = fn; }
 void mv_set_rng_reseed(int on) { reseed_rng = on; }
 int mv_me(void) { return my_pid; }
@@ -226,6 +228,7 @@ static void do_spin(int id) {
   cur_id = id;
   spins_since_progress[me]++;
   at_idle[me] = (id == ID_IDLE);
+  if (spin_observer) spin_observer(id, me);
   if (!finished) {
     if (id == ID_IDLE && !unit_mode) {
       int all = 1;
